@@ -463,6 +463,193 @@ def rn_int(z, prec):
     return (q << sh) * (1 if z >= 0 else -1)
 
 
+# ---------------------------------------------------------------- results that land EXACTLY on the modulus before the correction
+# (seeded C03-m8: `a >= _p` -> `a > _p` in ModularExtended<double>::reduce shows only for an exact non-zero multiple k*m of a modulus
+#  whose cached reciprocal fl(1/m) is rounded downwards).  The rounding direction of fl(1/m) and the value the correction step
+#  receives are recomputed here by exact rational arithmetic, so the moduli are CHOSEN, not hoped for.
+from fractions import Fraction
+
+
+def fl_round(x, prec):
+    """the rational x rounded to prec significant bits, nearest, ties to even (exponent range unbounded)"""
+    if x == 0:
+        return Fraction(0)
+    sg = 1 if x > 0 else -1
+    x = abs(x)
+    e = x.numerator.bit_length() - x.denominator.bit_length()      # 2^(e-1) <= x < 2^(e+1)
+    sh = prec - e
+    while True:
+        y = x * (Fraction(2) ** sh)
+        if y >= (1 << prec):
+            sh -= 1
+        elif y < (1 << (prec - 1)):
+            sh += 1
+        else:
+            break
+    q, r = divmod(y.numerator, y.denominator)
+    if 2 * r > y.denominator or (2 * r == y.denominator and q & 1):
+        q += 1
+    return sg * Fraction(q) / (Fraction(2) ** sh)
+
+
+def recip_direction(p, prec):
+    """'down' / 'up' / 'exact': how the cached reciprocal fl(1/p) compares with 1/p"""
+    inv = fl_round(Fraction(1, p), prec)
+    return "exact" if inv * p == 1 else ("down" if inv * p < 1 else "up")
+
+
+def lands_on_modulus(p, prec, ks):
+    """the k in ks for which q = floor(fl(k*p * fl(1/p))) is k-1, i.e. reduce(k*p) hands exactly p to its correction step"""
+    inv = fl_round(Fraction(1, p), prec)
+    out = []
+    for k in ks:
+        x = k * p
+        if x >= (1 << prec) or fl_round(Fraction(x), prec) != x:
+            continue
+        if math.floor(fl_round(x * inv, prec)) == k - 1:
+            out.append(k)
+    return out
+
+
+LAND_KS = (1, 2, 3, 7, 15, 1000, 65537, 1000003)
+RECIP_PREC = {"ef": 24, "ed": 53, "bi32": 53, "bi64": 53}     # rings that cache a floating reciprocal (_invp / _dinvp)
+
+
+def _isprime(n):
+    return n >= 2 and prevprime(n) == n
+
+
+def landing_moduli(ring, lo, hi, quick=False):
+    """per ring: moduli at small / medium / maximal magnitude, prime and composite, even and odd; for the rings with a cached
+    floating reciprocal, at every magnitude one modulus whose fl(1/m) is rounded DOWN and (k*m lands exactly on m) and one whose
+    fl(1/m) is rounded UP, prime and composite.  Deterministic (no random choice).  Returns (list, record for the evidence)."""
+    kb = hi.bit_length()
+    starts = sorted({s for s in [64, 256, 4096, 1 << 16, 1 << 20, 1 << 26, 1 << 32, 1 << 40, 1 << 45, 1 << 49, 1 << (kb - 1), hi]
+                     if lo + 8 <= s <= hi})
+    out = [m for m in (lo, lo + 1, lo + 2, lo + 3, 4, 6, 7, 9, 12, 13, 49, 98, 75, hi, hi - 1, hi - 2, prevprime(hi)) if lo <= m <= hi]
+    rec = {}
+    prec = RECIP_PREC.get(ring)
+    if quick and prec is None:
+        # no cached reciprocal: the landing classes depend on the code path, not on the magnitude -- small, one medium, maximal
+        out = [m for m in (lo, lo + 1, 4, 7, 12, 49, hi, hi - 1, prevprime(hi)) if lo <= m <= hi]
+        starts = [s for s in starts if s == 1 << 16 or s == 1 << (kb - 1)][:2]
+    for s in starts:
+        found = {}
+        if prec is None:
+            # no reciprocal: one prime, one even and one odd composite below the start
+            for m in range(s, max(lo, s - 400), -1):
+                key = "prime" if _isprime(m) else ("even" if m % 2 == 0 else "odd composite")
+                found.setdefault(key, m)
+                if len(found) == 3:
+                    break
+        else:
+            # just below a power of two 1/m is all but representable (error of second order): start a little further down
+            s0 = s - s // 37 if s >= (1 << 20) else s
+            for m in range(s0, max(lo, s0 - 3000), -1):
+                d = recip_direction(m, prec)
+                if d == "exact":
+                    continue
+                pr = "prime" if _isprime(m) else "composite"
+                if d == "down":
+                    if not lands_on_modulus(m, prec, LAND_KS):
+                        continue
+                    key = "down+lands " + pr
+                else:
+                    key = "up " + pr
+                found.setdefault(key, m)
+                if len(found) == 4:
+                    break
+        for k, m in found.items():
+            out.append(m)
+            rec.setdefault(k, []).append(m)
+    if prec is not None:
+        # the small moduli: every one in [lo, 300] whose multiple lands on the modulus (49, 98, 103, 107, 161, ... for double)
+        small = [m for m in range(max(lo, 2), min(hi, 300) + 1) if lands_on_modulus(m, prec, (1, 2, 3))]
+        rec["down+lands small (all up to 300)"] = small
+        out += small
+    return list(dict.fromkeys(out)), rec
+
+
+def divisor_pairs(p):
+    """(d, p/d) for the smallest and the middle non-trivial divisor of p (empty for primes)"""
+    out = []
+    d = 2
+    while d * d <= p and len(out) < 2 and d < 100000:
+        if p % d == 0:
+            out.append((d, p // d))
+            d = max(d + 1, math.isqrt(p) // 2)
+        else:
+            d += 1
+    return out
+
+
+def gen_landing(rng, ring, p, cases, quick=False):
+    """every operation at the operands whose exact result is 0 (mod p) or sits on the border of the canonical range -- the values
+    the implementation's last correction / normalisation step sees are then exactly p, 0, -p resp. +-p/2, p/2+1 -- and reduce (both
+    forms) of the exact multiples k*p, k*p+-1 (balanced: k*p + p/2, + p/2+1, + lo) with small and the largest quotients."""
+    lo, hi = elem_range(ring, p)
+    bal = is_balanced(ring)
+    h = p // 2
+    targets = [0, 1, -1] + ([h, h + 1, lo, lo - 1] if bal else [p - 1])
+    base = [hi, lo, 1, h if lo <= h <= hi else hi, (p - 1) // 3 if lo <= (p - 1) // 3 <= hi else 1]
+    pairs = [(a, b) for a in base for b in (hi, base[3])][:3 if quick else 6] + [(canon(ring, p, d), canon(ring, p, e)) for d, e in divisor_pairs(p)]
+    dp = divisor_pairs(p)
+    if dp:
+        d, e = dp[0]
+        for u, v in ((2, 3), (d - 1, e - 1)):
+            if 0 < u < e and 0 < v < d:          # (d*u) * (e*v) = u*v * p with both factors canonical
+                pairs.append((canon(ring, p, d * u), canon(ring, p, e * v)))
+    for a, b in pairs:
+        for op in ("mul", "mulin"):
+            cases.append((ring, p, op, [a, b]))
+        for t in targets:
+            cases.append((ring, p, "axpy", [a, b, canon(ring, p, t - a * b)]))
+            cases.append((ring, p, "axpyin", [a, b, canon(ring, p, t - a * b)]))
+            cases.append((ring, p, "axmy", [a, b, canon(ring, p, a * b - t)]))
+            cases.append((ring, p, "axmyin", [a, b, canon(ring, p, a * b - t)]))
+            cases.append((ring, p, "maxpy", [a, b, canon(ring, p, t + a * b)]))
+            cases.append((ring, p, "maxpyin", [a, b, canon(ring, p, t + a * b)]))
+    for a in dict.fromkeys([hi, lo, 1, 0] + ([] if quick else [h if lo <= h <= hi else hi, lo + 1 if lo + 1 <= hi else lo])):
+        for t in targets:
+            b = canon(ring, p, t - a)
+            cases.append((ring, p, "add", [a, b]))
+            cases.append((ring, p, "addin", [a, b]))
+            b = canon(ring, p, a - t)
+            cases.append((ring, p, "sub", [a, b]))
+            cases.append((ring, p, "subin", [a, b]))
+        cases.append((ring, p, "neg", [a]))
+        cases.append((ring, p, "negin", [a]))
+    # reduce
+    sr = storage_range(ring)
+    if sr is None:
+        if ring in ("f_f", "f_d", "bf", "ef"):
+            sr = (-(1 << 24), 1 << 24)
+        elif ring in ("d_d", "bd", "ed"):
+            sr = (-(1 << 53), 1 << 53)
+        elif ring == "bi32":
+            sr = (-(1 << 31) + 1, (1 << 31) - 1)
+        elif ring == "bi64":
+            sr = (-(1 << 63) + 1, (1 << 63) - 1)
+        elif ring.startswith("ru"):
+            sr = (0, (1 << (1 << int(ring[2]))) - 1)
+        elif ring.startswith("ri"):
+            sr = (-(1 << ((1 << int(ring[2])) - 1)) + 1, (1 << ((1 << int(ring[2])) - 1)) - 1)
+        elif ring in LOG_RINGS:
+            sr = (-(1 << 31) + 1, (1 << 31) - 1)
+        else:
+            sr = (-(1 << 300), 1 << 300)
+    prec = 24 if ring in ("f_f", "f_d", "bf", "ef") else (53 if ring in ("d_d", "bd", "ed") else None)
+    kmax = max(abs(sr[0]), abs(sr[1])) // p
+    for k in dict.fromkeys(list(LAND_KS[:5] if quick else LAND_KS) + [kmax, kmax - 1] + ([] if quick else [max(1, kmax // 2)])):
+        if k < 1:
+            continue
+        for d in [0, 1, -1] + ([h, h + 1, lo] if bal else []):
+            for x in (k * p + d, -(k * p + d)):
+                if sr[0] <= x <= sr[1] and (prec is None or rn_int(x, prec) == x):
+                    cases.append((ring, p, "reduce1", [x]))
+                    cases.append((ring, p, "reduce2", [x]))
+
+
 def gen_cases(rng, ring, p, per, cases):
     for op in OPS2:
         for _ in range(per):
@@ -937,6 +1124,7 @@ def main(tier, replay=None):
         chk.broke("extracted model driver does not build", l1)
     # 3. cases
     cases = []
+    landing_rec = {}
     replay_cfg = None
     if replay:
         rp = json.load(open(replay))
@@ -975,6 +1163,15 @@ def main(tier, replay=None):
             top = [m for m in ms if m == hi][:1] or [ms[-1]]
             if ring in EXT_RINGS:
                 gen_extended_directed(rng, ring, lo, hi, cases, 24 if quick else 200)
+            # results exactly on the modulus / on the border of the canonical range, over moduli chosen by exact recomputation
+            lm, lrec = landing_moduli(ring, lo, hi, quick)
+            if ring in LOG_RINGS:
+                lm = sorted({prevprime(m) for m in lm if m >= 2})
+            if quick and hi > (1 << 70):
+                lm = lm[:10] + lm[-6:]
+            landing_rec[ring] = {"moduli": len(lm), "classes": {k: [str(x) for x in v[:12]] for k, v in lrec.items()}}
+            for p in lm:
+                gen_landing(rng, ring, p, cases, quick)
             # every way of obtaining the ring object, on a few moduli of each ring (quick: 4, thorough: 16)
             sel = [ms[-1], ms[0]] + [rng.choice(ms) for _ in range(2 if quick else 14)]
             for p in (top + sel):
@@ -1117,6 +1314,7 @@ def main(tier, replay=None):
         for i, l in zip(idx, o):
             compare(name, i, l.strip())
     chk.cov["cases_per_configuration"] = per_cfg
+    chk.cov["moduli_for_results_landing_on_the_modulus"] = landing_rec
     chk.cov["model_comparisons_per_configuration"] = ncmp
     if inconclusive:
         chk.cov["inconclusive"] = inconclusive
